@@ -9,6 +9,7 @@ import (
 	"time"
 
 	bnet "github.com/bio-routing/bio-rd/net"
+	"github.com/bio-routing/bio-rd/protocols/bgp/types"
 	"github.com/bio-routing/bio-rd/route"
 	"github.com/bio-routing/bio-rd/routingtable"
 	"github.com/bio-routing/bio-rd/routingtable/adjRIBIn"
@@ -76,6 +77,7 @@ type concWorld struct {
 	in   *adjRIBIn.AdjRIBIn
 	out  [2]*adjRIBOut.AdjRIBOut
 	cnt  [2]*concCount
+	opts [2]routingtable.ClientOptions
 	cmx  *routingtable.ClientManager
 	vrf  *vrf.VRF
 	path *route.Path
@@ -98,10 +100,17 @@ func newConcWorld() *concWorld {
 			Type: route.BGPPathType, IBGP: false, LocalASN: 65000, PeerASN: uint32(65001 + i)}
 	}
 	for i := 0; i < 2; i++ {
-		w.out[i] = adjRIBOut.New(w.rib, sa(i), filter.NewAcceptAllFilterChain())
+		attrs := sa(i)
+		opts := routingtable.ClientOptions{BestOnly: true}
+		if i == 1 { // the second session sends several paths per prefix (add-path)
+			attrs.AddPathTX = true
+			opts = routingtable.ClientOptions{MaxPaths: 2}
+		}
+		w.out[i] = adjRIBOut.New(w.rib, attrs, filter.NewAcceptAllFilterChain())
 		w.cnt[i] = &concCount{have: map[string]int{}}
 		w.out[i].Register(w.cnt[i])
-		w.rib.RegisterWithOptions(w.out[i], routingtable.ClientOptions{BestOnly: true})
+		w.rib.RegisterWithOptions(w.out[i], opts)
+		w.opts[i] = opts
 	}
 	w.in = adjRIBIn.New(filter.NewAcceptAllFilterChain(), w.vrf, sa(7))
 	w.in.Register(w.rib)
@@ -109,6 +118,11 @@ func newConcWorld() *concWorld {
 	for k := 0; k < 3; k++ { // routes learned before the scenario starts (policy replacements have something to re-evaluate)
 		w.in.AddPath(concPfx(200, k), w.path.Copy())
 	}
+	// a route that must not be advertised to anybody (NO_ADVERTISE): the sessions' tables have to leave it out
+	na := buildRibPath(ribPath{LP: 100, NH: 9, ASP: []uint32{65009, 65011}}, false, true, bnet.IPv4FromOctets(10, 0, 0, 9).Ptr(),
+		[]uint32{types.WellKnownCommunityNoAdvertise})
+	w.in.AddPath(concPfx(200, 3), na)
+	w.in.AddPath(concPfx(200, 0), na.Copy()) // and as a second path of a prefix that also has an ordinary one
 	w.cmx = routingtable.NewClientManager(concMaster{})
 	w.cmx.Dispose()
 	return w
@@ -136,7 +150,7 @@ func (w *concWorld) run(op string, proc, reps int) {
 		case "rereg1", "rereg2":
 			o := w.out[int(op[5]-'1')]
 			w.rib.Unregister(o)
-			w.rib.RegisterWithOptions(o, routingtable.ClientOptions{BestOnly: true})
+			w.rib.RegisterWithOptions(o, w.opts[int(op[5]-'1')])
 		case "dump":
 			w.rib.Dump()
 			w.out[0].Dump()
@@ -266,14 +280,24 @@ func init() {
 				}
 			}
 			if defined {
+				// (the two prefixes that have a NO_ADVERTISE path are left out: what an add-path session does with them is C08's business)
+				skip := map[string]bool{concPfx(200, 0).String(): true, concPfx(200, 3).String(): true}
 				want := []string{}
 				for _, rt := range w.rib.Dump() {
-					want = append(want, rt.Prefix().String())
+					if !skip[rt.Prefix().String()] {
+						want = append(want, rt.Prefix().String())
+					}
 				}
 				sort.Strings(want)
 				for i := 0; i < 2; i++ {
-					if kind, missing, extra := core.SetDiff(want, w.cnt[i].keys()); kind != "" {
-						return &core.Divergence{Step: 0, Action: "Scenario", Field: "final-state", Kind: kind, Class: class, Want: want, Got: w.cnt[i].keys(),
+					got := []string{}
+					for _, k := range w.cnt[i].keys() {
+						if !skip[k] {
+							got = append(got, k)
+						}
+					}
+					if kind, missing, extra := core.SetDiff(want, got); kind != "" {
+						return &core.Divergence{Step: 0, Action: "Scenario", Field: "final-state", Kind: kind, Class: class, Want: want, Got: got,
 							Detail: fmt.Sprintf("round %d, client of session %d: missing=%v extra=%v", r+1, i+1, missing, extra)}
 					}
 				}
